@@ -136,6 +136,14 @@ fn gen_world(ch: &mut Choices<'_>) -> (World, bool) {
             gen_.hints.list_names.push((t.clone(), nm));
         }
     }
+    // now and then a list for a container type as well (its entry carries a nested type descriptor)
+    if gen_.ch.chance(1, 4) {
+        let t = gen_.ch.pick(&[MType::array(MType::Bytes), MType::map(MType::Int), MType::array(MType::array(MType::Bool)), MType::map(MType::array(MType::Ip))]).clone();
+        if gen_.r.list_kind(&t).is_none() {
+            let k = *gen_.ch.pick(&[ListKind::Always, ListKind::Never]);
+            gen_.r.lists.push((t, k));
+        }
+    }
     let recipe = gen_.r.clone();
     let hints: Hints = gen_.hints.clone();
     let ch = gen_.ch;
@@ -179,6 +187,24 @@ fn roundtrip_case(ch: &mut Choices<'_>, st: &mut Stats) -> CaseResult {
     let want = expected_fields_json(&w);
     st.class(if got == want { "serialised-in-the-documented-shape" } else { "serialised-in-another-shape" });
     let text: &'static str = arena.keep_str(text);
+    // readers are stateless: a document this thread failed to read just before (fault inside a
+    // nested type descriptor of the list section) must not change how the next one is read
+    if has_lists && ch.chance(1, 4) {
+        let layers = *ch.pick(&[1usize, 2, 3, 33, 34, 40, 64]);
+        let inner = *ch.pick(&["\"Bytez\"", "7", "\"Int\"", "{\"Arr\":\"Int\"}", "null"]);
+        let mut d = String::new();
+        for i in 0..layers {
+            d.push_str(if (i + layers) % 2 == 0 { "{\"Array\":" } else { "{\"Map\":" });
+        }
+        d.push_str(inner);
+        d.push_str(&"}".repeat(layers));
+        let bad: &'static str = arena.keep_str(format!("{{\"$lists\":[{{\"type\":{d},\"data\":{{}}}}]}}"));
+        let way = ch.draw(3);
+        if let Err(p) = feed(&mut arena, scheme, bad, way) {
+            return Err(Fail::new("deserialize-panic", format!("[{}] {p}", WAYS[way]), json!({"document": bad})));
+        }
+        st.class("roundtrip-after-a-failed-read-on-this-thread");
+    }
     let value_tree_lists_known = has_lists;
     for way in 0..6 {
         st.eval();
